@@ -15,6 +15,7 @@ RULE = ("projects of 1-5 conventional classes whose method and constructor bodie
         "line, whole class on one line), receivers declared as fields / parameters / locals at earlier points, names "
         "reused with different types across methods and files; non-trivial = a body with at least 2 calls; "
         "distinct = distinct input"
+        "; every third project is analysed after ANOTHER tree (same simple class names, own package) in the same process, two in five from inside the project (-p .)"
         "; every other tree is analysed as DIR/., 15% of the units have Windows line ends, method names include multi-byte letters and '$'")
 TRUSTED_BASE = C01.TRUSTED_BASE
 ASSUMPTIONS = C01.ASSUMPTIONS + ["identifiers are ASCII, so rune columns are byte columns"]
